@@ -53,6 +53,18 @@ class REdit(_Rec, urwid.Edit):
         return super().move_cursor_to_coords(size, x, y)
 
 
+class ParkedEdit(REdit):
+    """a field that parks the terminal cursor on its first cell: overrides the get_cursor_coords half of the (render, get_cursor_coords) pair"""
+
+    def get_cursor_coords(self, size):
+        super().get_cursor_coords(size)
+        return (0, 0)
+
+    def move_cursor_to_coords(self, size, x, y):
+        self.log.append(("move", tuple(size), x, y))
+        return False  # the parked cursor does not move
+
+
 class RLineBox(urwid.LineBox):
     """LineBox that records the sizes it is rendered at (it needs 3 columns / 3 rows: borders + 1)"""
 
@@ -87,7 +99,7 @@ class Leaf:
         self.twin = twin
 
 
-LEAF_KINDS = ["p2", "p1", "pdeny", "edit", "editcap", "icon", "punsel"]
+LEAF_KINDS = ["p2", "p1", "pdeny", "edit", "editcap", "icon", "punsel", "editpark"]
 LEAF_KINDS_BOX = ["pbox", "pboxdeny"]
 
 
@@ -107,6 +119,9 @@ def mk_leaf(kind, name) -> Leaf:
     if kind == "pbox":
         p = Probe(name, ("box",), (2, 2), selectable=True, cursor=(0, 0))
         return Leaf(name, p, p, kind, None)
+    if kind == "pboxnocur":
+        p = Probe(name, ("box",), (2, 2), selectable=True, cursor=None)
+        return Leaf(name, p, p, kind, None)
     if kind == "pboxdeny":
         p = Probe(name, ("box",), (2, 2), selectable=True, cursor=(0, 0), accept=lambda x, y, c, r: x != 1)
         return Leaf(name, p, p, kind, None)
@@ -114,6 +129,8 @@ def mk_leaf(kind, name) -> Leaf:
         mk = lambda: REdit(name, "c:", "ab\ncd", multiline=True)  # noqa: E731
     elif kind == "editcap":
         mk = lambda: REdit(name, "ca\np:", "xyz")  # noqa: E731  caption spans two rows
+    elif kind == "editpark":
+        mk = lambda: ParkedEdit(name, "", "ab\ncd", multiline=True)  # noqa: E731
     elif kind == "icon":
         mk = lambda: RIcon(name, "ic", 1)  # noqa: E731
     else:
@@ -181,6 +198,8 @@ def containers():
     add("Overlay[box;right-rel50,bottom-rel50,l1t1]", "box", lambda fx, c: urwid.Overlay(c, urwid.SolidFill("."), "right", ("relative", 50), "bottom", ("relative", 50), left=1, top=1))
     add("Overlay[flow;center4,middle-pack]", "flow", lambda fx, c: urwid.Overlay(c, urwid.SolidFill("."), "center", 4, "middle", "pack"))
     add("Overlay[flow;left3,bottom-pack,r1b1]", "flow", lambda fx, c: urwid.Overlay(c, urwid.SolidFill("."), "left", 3, "bottom", "pack", right=1, bottom=1))
+    # a message box without a cursor over a form: the varying child is the bottom widget
+    add("Overlay[box;nocursor-top over c]", "box", lambda fx, c: urwid.Overlay(fx.leaf("pboxnocur"), c, "center", 2, "middle", 1))
     add("BoxAdapter[3]", "box", lambda fx, c: urwid.BoxAdapter(c, 3))
     add("LineBox", "any", lambda fx, c: RLineBox(c))
     add("LineBox[title,no-bottom]", "any", lambda fx, c: RLineBox(c, "t", bline="", blcorner="", brcorner=""))
@@ -427,6 +446,8 @@ def check_size(ctx: Ctx, path, name, mode, size, fit):
     root, leaves = G.build(path)
     cursor_agrees(ctx, V, root, size, "initial")
     warm_walk(ctx, V, path, name, size, geo, leaves)
+    if "nocursor-top over" in name:
+        return  # the widgets below an Overlay's top widget are drawn but take no input (the Overlay is modal): only the cursor views are compared there
     cols, rows = canv.cols(), canv.rows()
     by = {lf.name: lf for lf in leaves}
     for Y in range(rows):
